@@ -6,11 +6,13 @@ def conv(src,dst):
     s=open(src).read()
     s=s.replace("From WIP Require Import WorldSpec WorldCore.","From AV.Spec Require Import WorldSpec.\nFrom AV.Proofs Require Import WorldCore.")
     s=s.replace("From WIP Require Import WorldSpec.","From AV.Spec Require Import WorldSpec.")
+    s=s.replace("From WIP Require WorldProofs WorldFused.","From AV.Proofs Require WorldProofs WorldFused.")
     s=s.replace("From WIP Require WorldProofs.","From AV.Proofs Require WorldProofs.")
+    s=s.replace("From WIP Require Import WorldSpec WorldProofs.","From AV.Spec Require Import WorldSpec.\nFrom AV.Proofs Require Import WorldProofs.")
     s=s.replace("From WIP Require Export ","From AV.Proofs Require Export ")
     assert "WIP" not in s, (src, [l for l in s.split('\n') if 'WIP' in l])
     if not os.path.exists(dst) or open(dst).read()!=s:
         open(dst,'w').write(s)
 conv('wip/WorldSpec.v','AV/Spec/WorldSpec.v')
-for f in ['WorldCore','WorldSplice','WorldRead','WorldMore','WorldProofs','OwnHistory']:
+for f in ['WorldCore','WorldSplice','WorldRead','WorldMore','WorldProofs','WorldFused','OwnHistory']:
     conv('wip/%s.v'%f,'AV/Proofs/%s.v'%f)
